@@ -120,7 +120,8 @@ Proof.
       * assert (Hexp : forall zi zf q, expect_at L false (key_kind k) (key_label k) zi zf (fst q) (snd q) = []).
         { intros. apply expect_zside_nopop; auto. }
         rewrite (flat_map_nil _ _ (fun q => Hexp [] [] q)) in O3. rewrite O3. cbn [forallb andb].
-        apply forallb_forall. intros q _. rewrite Hexp. cbn [filter rows_eqb]. apply orb_true_r.
+        apply forallb_forall. intros q _. rewrite Hexp. cbn [filter rows_eqb].
+        destruct (appending L _ _); [reflexivity|]. unfold read_covered. rewrite Hpop, andb_false_r. reflexivity.
       * rewrite O3. apply rows_eqb_refl.
     + (* not reached: empty, header-less file *)
       assert (Hdata : data = []) by (apply O4; change (0 + d <= j)%nat; lia).
@@ -179,10 +180,10 @@ Qed.
 
 (* C16_model_meets_spec for every nest without populate levels *)
 Theorem model_meets_spec_eager : forall c,
-  c16_wf c = true -> c16_region c = 0 -> forallb eager_level (k_levels c) = true -> k_ref c = false ->
+  c16_wf c = true -> c16_region c = 0 -> forallb eager_level (k_levels c) = true ->
   c16_holds c (c16_model c) = true.
 Proof.
-  intros c Hwf Hreg Heg Hkr.
+  intros c Hwf Hreg Heg.
   pose proof (wf_env_ok c Hwf) as Henv.
   assert (Hfacts : (length (k_levels c) <= 3)%nat
                    /\ forallb (fun k => 0 <=? key_rank k) (k_keys c) = true
@@ -210,9 +211,9 @@ Proof.
               (k_keys c) false (k_inputs c) (z_in c) Heg Henv (region0_int_ok c Hreg Hlen)) as [_ Hall].
   destruct (Hall k Hk) as (data & Hc & Hok).
   assert (Est : exec 0 (init_state (k_keys c) true false)
-                  (fst (run false (traced c) (k_zshape c) (n_pop (k_levels c)) (k_skip c) (k_levels c) 0 []
+                  (fst (run (traced c) (k_zshape c) (n_pop (k_levels c)) (k_skip c) (k_levels c) 0 []
                             (k_inputs c) {| th_z := z_in c; th_lab := lab0 |})) = st).
-  { unfold st, c16_events. rewrite Hkr. reflexivity. }
+  { unfold st, c16_events. reflexivity. }
   rewrite Est in Hc.
   rewrite (files_of_alt c st k). fold (content st k). rewrite Hc, rows_of_V_rows.
   apply trace_ok_of_spec; auto. lia. apply traced_in; auto.
